@@ -268,6 +268,9 @@ fn opts() -> BoxedStrategy<Vec<(String, String)>> {
         1 => Just(vec![("blksize".to_string(), "1024".to_string()), ("windowsize".to_string(), "4".to_string())]),
         1 => Just(vec![("tsize".to_string(), "0".to_string()), ("windowsize".to_string(), "2".to_string())]),
         1 => Just(vec![("timeout".to_string(), "2".to_string())]),
+        // tsize as real clients send it: the length of the upload (placeholder, replaced per step)
+        2 => Just(vec![("tsize".to_string(), "LEN".to_string())]),
+        1 => Just(vec![("blksize".to_string(), "1024".to_string()), ("tsize".to_string(), "LEN".to_string())]),
     ]
     .boxed()
 }
@@ -276,6 +279,7 @@ pub fn strategy() -> BoxedStrategy<Case> {
     let step = (any::<bool>(), 0u8..11, opts(), prop::sample::select(vec![0usize, 1, 40, 100, 512, 600, 2000, 3500]), prop_oneof![9 => Just(None), 1 => (0usize..3).prop_map(Some)]).prop_map(|(write, target, opts, upload_len, abort_after)| {
         // small blksize with a long upload would need hundreds of round trips
         let upload_len = if opts.iter().any(|(n, v)| n == "blksize" && v == "8") { upload_len.min(100) } else { upload_len };
+        let opts: Vec<(String, String)> = opts.into_iter().map(|(n, v)| if v == "LEN" { (n, if write { upload_len.to_string() } else { "0".to_string() }) } else { (n, v) }).collect();
         Step { write, target, opts, upload_len, abort_after }
     });
     (prop_oneof![3 => Just(false), 1 => Just(true)], any::<bool>(), any::<bool>(), any::<bool>(), any::<bool>(), proptest::collection::vec(step, 1..12), any::<u64>())
